@@ -109,6 +109,25 @@ func TestC07(t *testing.T) {
 	}
 	close(ch)
 	wg.Wait()
+	// several endpoints with different intervals in one stack: the scheduler pass must probe
+	// exactly the endpoints that are due, each on its own schedule
+	mh := rep.Pick(24, 300)
+	ch2 := make(chan int)
+	for wk := 0; wk < workers; wk++ {
+		wg.Add(1)
+		go func() {
+			defer wg.Done()
+			for h := range ch2 {
+				multiEndpointHistory(run, rand.New(rand.NewSource(seed*7001+int64(h))), h)
+			}
+		}()
+	}
+	for h := 0; h < mh; h++ {
+		ch2 <- h
+	}
+	close(ch2)
+	wg.Wait()
+	run.Require("multi_endpoint_steps_compared", int64(mh*10))
 	run.Require("steps_compared", int64(histories*steps/2))
 	run.Require("real_probes_observed", int64(histories))
 	run.Require("recoveries_observed", int64(histories/4))
@@ -537,4 +556,138 @@ func keysI(m map[int]bool) []int {
 		o = append(o, k)
 	}
 	return o
+}
+
+// multiEndpointHistory: 3-5 endpoints with different check intervals in one stack, outcomes ok /
+// 500 per endpoint and step (never three failures in a row, so the health breaker stays out of
+// it), simulated time advanced for all of them together; after every scheduler pass each endpoint
+// must have been probed iff it was due, and carry the status and next-check delay of its own
+// schedule.
+func multiEndpointHistory(run *rep.Run, rng *rand.Rand, h int) {
+	n := 3 + rng.Intn(3)
+	ivs := []time.Duration{1 * time.Second, 2 * time.Second, 5 * time.Second, 10 * time.Second, 30 * time.Second}
+	var backs []*backend.Std
+	var eps []world.Endpoint
+	I := make([]time.Duration, n)
+	for i := 0; i < n; i++ {
+		I[i] = ivs[rng.Intn(len(ivs))]
+		b := backend.NewStd(fmt.Sprintf("m%de%d", h, i), []string{"m1"}, nil)
+		backs = append(backs, b)
+		eps = append(eps, world.Endpoint{Name: b.Name, URL: b.URL(), Type: "ollama", Priority: 100, CheckInterval: I[i], CheckTimeout: checkTimeout})
+	}
+	defer func() {
+		for _, b := range backs {
+			b.Close()
+		}
+	}()
+	bornAt := time.Now()
+	w, err := world.Start(world.Spec{Engine: "sherpa", Balancer: "priority", Endpoints: eps})
+	if err != nil {
+		run.Inconclusive("world failed to start: " + err.Error())
+		return
+	}
+	defer w.Stop()
+	ctx := context.Background()
+	t0 := time.Now()
+	simShift := 0.0
+	simNow := func() float64 { return time.Since(t0).Seconds() + simShift }
+	type refE struct {
+		f      int
+		next   float64
+		status string
+	}
+	ref := make([]refE, n)
+	for i, b := range backs {
+		ep := w.EndpointByName(b.Name)
+		ref[i] = refE{0, simNow() + time.Until(ep.NextCheckTime).Seconds(), string(ep.Status)}
+	}
+	var trace []string
+	for step := 0; step < 14; step++ {
+		if time.Since(bornAt) > 22*time.Second {
+			break
+		}
+		d := []float64{1.3, 3.7, 8.1, 17.9, 41.3, 66.7}[rng.Intn(6)]
+		tooClose := func(d float64) bool {
+			t := simNow() + d
+			for i := range ref {
+				if x := t - ref[i].next; x > -1.2 && x < 1.2 {
+					return true
+				}
+			}
+			return false
+		}
+		for k := 0; k < 12 && tooClose(d); k++ {
+			d += 1.9
+		}
+		if tooClose(d) {
+			continue
+		}
+		dd := time.Duration(d * float64(time.Second))
+		for _, b := range backs {
+			c := *w.EndpointByName(b.Name)
+			c.LastChecked = c.LastChecked.Add(-dd)
+			c.NextCheckTime = c.NextCheckTime.Add(-dd)
+			w.Repo().UpdateEndpoint(ctx, &c)
+		}
+		w.Health().VerifShift(dd)
+		simShift += d
+		out := make([]string, n)
+		hits0 := make([]int64, n)
+		for i, b := range backs {
+			out[i] = "ok"
+			if ref[i].f < 2 && rng.Intn(3) == 0 {
+				out[i] = "500"
+				b.SetHealth(500, "")
+			} else {
+				b.SetHealth(200, "")
+			}
+			hits0[i] = b.HealthHits.Load()
+		}
+		now := simNow()
+		driveStart := time.Now()
+		cctx, cancel := context.WithTimeout(ctx, 15*time.Second)
+		w.Health().VerifTick(cctx)
+		cancel()
+		overloaded := time.Since(driveStart) >= checkTimeout
+		after := simNow()
+		trace = append(trace, fmt.Sprintf("+%.1fs %v", d, out))
+		for i, b := range backs {
+			due := now >= ref[i].next
+			hits := b.HealthHits.Load() - hits0[i]
+			ep := w.EndpointByName(b.Name)
+			wit := map[string]any{"endpoints": n, "intervals": fmt.Sprint(I), "endpoint": i, "interval": I[i].String(), "steps": trace, "due": due, "health_hits": hits, "status": string(ep.Status)}
+			run.Count("multi_endpoint_steps_compared", 1)
+			if !due {
+				if hits != 0 {
+					run.Violation("C07/multi/probe/before-due", fmt.Sprintf("endpoint %d (interval %s) was probed %.1f s before its next check time", i, I[i], ref[i].next-now), wit)
+				}
+				continue
+			}
+			if hits == 0 {
+				run.Violation("C07/multi/probe/missing", fmt.Sprintf("endpoint %d (interval %s) was due %.1f s ago but the scheduler pass did not probe it", i, I[i], now-ref[i].next), wit)
+				continue
+			}
+			if overloaded && string(ep.Status) == "offline" {
+				run.Inconclusive("multi-endpoint history ended: a probe ran into check_timeout (overloaded machine)")
+				return
+			}
+			want, f := "healthy", 0
+			if out[i] == "500" {
+				want, f = "unhealthy", ref[i].f+1
+			}
+			if string(ep.Status) != want {
+				run.Violation("C07/multi/status", fmt.Sprintf("endpoint %d answered %s, status is %s", i, out[i], ep.Status), wit)
+			}
+			got := ep.NextCheckTime.Sub(ep.LastChecked).Seconds()
+			wantD := I[i].Seconds()
+			if f > 0 {
+				wantD = delayFor(I[i], f)
+			}
+			if got != wantD {
+				run.Violation("C07/multi/delay", fmt.Sprintf("endpoint %d (interval %s, %d consecutive failed checks): next check in %.1fs, schedule says %.1fs", i, I[i], f, got, wantD), wit)
+			}
+			ref[i] = refE{f, after + got, want}
+		}
+	}
+	run.Eval(fmt.Sprintf("multi/%v/%d", I, h))
 }
